@@ -532,6 +532,8 @@ class Interp:
             if ty.startswith('PhantomData') or ty.startswith('std::marker::PhantomData'):
                 return UNIT
             return self.named_fn_or_unit(fn, ty)
+        if k == 'fnitem':
+            return FnPtr(c[1])
         if k == 'promoted':
             owner = fn
             pf = owner.promoted.get(c[1])
